@@ -60,16 +60,16 @@ EXTRA = {
  "C02": "; the content file is replaced by a truncating write; upload ids are the atomic increment's own result; every mutator in its matching critical section",
  "C03": "; the scan variant agrees with which range ends are present; no nil bound; no per-range scratch value carried over; a sent chunk buffer is not recycled",
  "C04": "; conditions evaluated derive from the request on every path (backward flow); no per-source condition carried over from the previous source",
- "C05": "; copyRow gives copies their own cell slices; in-place compactions are truncated before use",
- "C06": "; GC never writes back a stale row; copyRow depth",
+ "C05": "; copyRow gives copies their own cell slices; in-place compactions are truncated before use; isEmpty answers on the evidence of a cell",
+ "C06": "; GC never writes back a stale row; copyRow depth; the ReadModifyWriteRow timestamp depends on the newest existing cell",
  "C07": "; no nested object locks; check-then-act on the bucket map under one hold; stored memory-store records are never assigned in place",
  "C08": "; registry check-then-act under one hold; a created table starts from a wiped directory and Clear reopens with nuke; walk callbacks examine their error first",
- "C09": "; Copy does not mix source and destination names; any return on an unreadable sidecar excludes not-exist first; siblings use the same named parameters; scrubbed fields are recomputed",
+ "C09": "; Copy does not mix source and destination names; any return on an unreadable sidecar excludes not-exist first; siblings use the same named parameters; scrubbed fields are recomputed; directory entries never reach the per-object listing logic",
  "C10": "; every mutator in its matching critical section; stored records immutable",
- "C11": "; walk callback examines its error first; sibling parameter use",
- "C12": "; copyRow depth; no row deletion from inside an iteration",
- "C13": "; timestamps from the injectable clock; column lookups do not rely on qualifier order; appendOrReplaceCell uniqueness conditions; read and write-back of every row RPC under one hold",
- "C14": "; registry check-then-act under one hold; no nil scan bound; rows closed only at shutdown",
+ "C11": "; walk callback examines its error first; sibling parameter use; directory entries never reach the per-object listing logic",
+ "C12": "; copyRow depth; no row deletion from inside an iteration; isEmpty answers on the evidence of a cell",
+ "C13": "; timestamps from the injectable clock; column lookups do not rely on qualifier order; appendOrReplaceCell uniqueness conditions; read and write-back of every row RPC under one hold; the written timestamp depends on the newest existing cell",
+ "C14": "; registry check-then-act under one hold; no nil scan bound; rows closed only at shutdown; the ListTables parent prefix includes the /tables/ separator",
  "C15": "; no nested object locks; decode target is not a shallow copy of a store object; stored records immutable",
  "C16": "; GC cut-offs from the injectable clock; every row store stamps the write-activity clock; engine methods have only their own effect and take no locks",
  "C17": "; dispatch shape; engine contracts (reopen passes nuke, Create wipes, single-effect methods, no engine locks, Close only at shutdown)",
